@@ -26,6 +26,11 @@ type TagSpec struct {
 	Name      string `json:"name"`
 	Annotated bool   `json:"annotated"`
 	Commit    int    `json:"commit"` // index into the commit list (0 = oldest)
+	// Side: 0 = the tag sits on that commit of the main line; 1 = on a commit of a side branch forked
+	// from it (a release cut from a maintenance branch); 2 = same, and the branch was deleted since
+	// (the commit is reachable through the tag only). "Every existing tag" counts, reachable from
+	// HEAD or not.
+	Side int `json:"side,omitempty"`
 }
 
 type Step struct {
@@ -38,6 +43,9 @@ type Case struct {
 	Commits int       `json:"commits"`
 	Tags    []TagSpec `json:"tags"`
 	Steps   []Step    `json:"steps"`
+	// Behind > 0: before the first step HEAD is checked out (detached) that many commits behind the
+	// tip of the main line, so tags on later commits are not ancestors of HEAD
+	Behind int `json:"behind,omitempty"`
 }
 
 // ---- independent semver (strict, semver.org 2.0.0) --------------------------------------------
@@ -189,7 +197,14 @@ func gen(t *rapid.T) Case {
 			continue
 		}
 		seen[name] = true
-		c.Tags = append(c.Tags, TagSpec{Name: name, Annotated: rapid.Bool().Draw(t, "annotated"), Commit: rapid.IntRange(0, c.Commits-1).Draw(t, "commit")})
+		tg := TagSpec{Name: name, Annotated: rapid.Bool().Draw(t, "annotated"), Commit: rapid.IntRange(0, c.Commits-1).Draw(t, "commit")}
+		if rapid.IntRange(0, 3).Draw(t, "side") == 3 {
+			tg.Side = rapid.IntRange(1, 2).Draw(t, "sidekind")
+		}
+		c.Tags = append(c.Tags, tg)
+	}
+	if c.Commits > 1 && rapid.IntRange(0, 5).Draw(t, "behind") == 5 {
+		c.Behind = rapid.IntRange(1, c.Commits-1).Draw(t, "behindn")
 	}
 	ns := rapid.IntRange(1, 3).Draw(t, "nsteps")
 	for i := 0; i < ns; i++ {
@@ -270,7 +285,8 @@ func observe(dir string) repoState {
 			st.others += strings.Join(f, " ") + "\n"
 		}
 	}
-	st.others += "HEAD " + strings.TrimSpace(git(dir, "rev-parse", "HEAD")) + " " + strings.TrimSpace(git(dir, "symbolic-ref", "-q", "HEAD"))
+	sym := vh.Run(dir, vh.CleanEnv(), 60*time.Second, "git", "symbolic-ref", "-q", "HEAD") // exit 1 = detached
+	st.others += "HEAD " + strings.TrimSpace(git(dir, "rev-parse", "HEAD")) + " " + strings.TrimSpace(sym.Stdout)
 	st.index = vh.Hash(git(dir, "ls-files", "-s"))
 	st.status = git(dir, "status", "--porcelain")
 	snap := vh.Snapshot(dir)
@@ -329,6 +345,15 @@ func classify(c Case) (string, []string) {
 			cl = append(cl, "requested=invalid")
 		}
 	}
+	for _, tg := range c.Tags {
+		if tg.Side > 0 {
+			cl = append(cl, fmt.Sprintf("tag-on-side-branch=%d", tg.Side))
+			break
+		}
+	}
+	if c.Behind > 0 {
+		cl = append(cl, "head-detached-behind-tip")
+	}
 	cl = append(cl, fmt.Sprintf("steps=%d", len(c.Steps)))
 	if nt {
 		return vh.Hash(vh.JSON(c)), cl
@@ -352,12 +377,28 @@ func run(c Case) *vh.Violation {
 		git(dir, "commit", "-q", "-m", fmt.Sprintf("c%d", i))
 		commits = append(commits, strings.TrimSpace(git(dir, "rev-parse", "HEAD")))
 	}
-	for _, tg := range c.Tags {
-		if tg.Annotated {
-			git(dir, "tag", "-a", "-m", tg.Name, tg.Name, commits[tg.Commit])
-		} else {
-			git(dir, "tag", tg.Name, commits[tg.Commit])
+	for ti, tg := range c.Tags {
+		at := commits[tg.Commit]
+		if tg.Side > 0 {
+			br := fmt.Sprintf("side-%d", ti)
+			git(dir, "checkout", "-q", "-b", br, at)
+			vh.WriteFiles(dir, map[string]string{fmt.Sprintf("side%d.txt", ti): "released from a side branch\n"})
+			git(dir, "add", "-A")
+			git(dir, "commit", "-q", "-m", br)
+			at = strings.TrimSpace(git(dir, "rev-parse", "HEAD"))
+			git(dir, "checkout", "-q", "main")
 		}
+		if tg.Annotated {
+			git(dir, "tag", "-a", "-m", tg.Name, tg.Name, at)
+		} else {
+			git(dir, "tag", tg.Name, at)
+		}
+		if tg.Side == 2 {
+			git(dir, "branch", "-q", "-D", fmt.Sprintf("side-%d", ti))
+		}
+	}
+	if c.Behind > 0 && c.Behind < len(commits) {
+		git(dir, "checkout", "-q", "--detach", commits[len(commits)-1-c.Behind])
 	}
 	var history []string
 	for si, s := range c.Steps {
